@@ -210,6 +210,7 @@ type c07Obs struct {
 	ErrClass   string `json:"err_class"`   // "eof" | "fatal" | "timeout"
 	ErrText    string `json:"err_text"`
 	RecBits    int    `json:"rec_bits"` // size in bits of the record a single flip targets
+	AfterErr   int    `json:"after_err"` // bytes returned by Read calls made after the first error
 	Panic      string `json:"panic,omitempty"`
 }
 
@@ -349,6 +350,15 @@ func runSchedule(s *schedule) (obs c07Obs, err error) {
 			wire = append(wire[:i], append([]wrec{{a, 0}}, wire[i:]...)...)
 		}
 	}
+	// the sender keeps reading what comes back (alerts), as a live application would
+	go func() {
+		b := make([]byte, 4096)
+		for {
+			if _, e := snd.Read(b); e != nil {
+				return
+			}
+		}
+	}()
 	// deliver everything, then end the stream
 	done := make(chan struct{})
 	var got []byte
@@ -366,7 +376,15 @@ func runSchedule(s *schedule) (obs c07Obs, err error) {
 			got = append(got, buf[:n]...)
 			if e != nil {
 				rerr = e
-				return
+				break
+			}
+		}
+		// the error must be sticky: an application that reads again gets nothing more
+		for i := 0; i < 3; i++ {
+			n, e := rcv.Read(buf)
+			obs.AfterErr += n
+			if e == nil && n == 0 {
+				break
 			}
 		}
 	}()
